@@ -1022,7 +1022,7 @@ LEVEL_TEXT = ("Proved in Lean 4 about the executable transcription of Xml::decod
               "history, every non-null parent pointer designates a node that is allocated, not destroyed, and holds the pointing node in its child "
               "array — also for a child shared by two elements or appended twice, and whatever dies first. Tied by the K op `own` (600 random + 7 "
               "directed histories per quick run under ASan/LSan, per step: which variable holds which node, parent(), children) and an independent "
-              "count-free python mirror. "
+              "count-free python mirror. ownership_counts_partial: a node is destroyed only at count zero, never counted again, and owns nothing afterwards. "
               "xml_raw_children_array_dangles states the known finding raw-children-array on the model. "
               "Tie to the code: correspondence check K (model driver vs real library under ASan/UBSan/LSan on generated documents, "
               "mutations, truncations, exhaustive short strings, DOM trees to depth 12) plus independent python oracles (expat, "
